@@ -5,7 +5,7 @@ Import ListNotations.
 Open Scope string_scope.
 
 
-(* saml2/request.py:Request._verify, lines 126-136 *)
+(* saml2/request.py:Request._verify, lines 135-145 *)
 Definition src_request_verify (issue_instant_ok : pyval) (v_self : pyval) : pyval :=
   (let v_valid_version := (PStr "2.0") in
    (if py_truthy (py_ne (py_attr (py_attr v_self "message") "version") v_valid_version)
